@@ -59,7 +59,10 @@ pub assume_specification[ u32::is_power_of_two ](x: u32) -> (r: bool)
 #[verifier::external_body]
 pub fn __from_utf8_unchecked(v: Vec<u8>) -> (r: String)
     requires forall|i: int| 0 <= i < v@.len() ==> v@[i] < 128
+    ensures sbytes(r) == v@
 { unimplemented!() }
+/// the UTF-8 bytes of a String (uninterpreted; fixed by the constructor above)
+pub uninterp spec fn sbytes(s: String) -> Seq<u8>;
 
 //@ assume __any_ge : rule R12d: std semantics of `s.iter().any(|&b| b >= x)`
 #[verifier::external_body]
